@@ -2226,6 +2226,21 @@ def _field_metadata(st: ast.AnnAssign) -> dict[str, ast.expr]:
     return {}
 
 
+def _stores_config_value(corpus: Corpus, f: FunctionInfo, call: ast.Call, depth: int = 2) -> bool:
+    """The call validates / stores a configuration value: setattr or validate_field itself, or a package helper
+    (followed through the call graph) that contains such a call."""
+    if dotted(call.func) in ("setattr", "validate_field"):
+        return True
+    if depth <= 0:
+        return False
+    for h in _package_helpers(corpus, f, call):
+        if h.name in ("validate_field",):
+            return True
+        if h.module.name.startswith("myst_parser.config") and any(isinstance(c, ast.Call) and _stores_config_value(corpus, h, c, depth - 1) for c in walk_local(h.node)):
+            return True
+    return False
+
+
 def _r4_global_only(corpus: Corpus, rep: Report) -> None:
     """The slug function is imported from a dotted path and called with every heading text: only the global configuration
     may name it, never a document's own front matter (whose anchors myst-anchors and other documents could not predict)."""
@@ -2251,10 +2266,10 @@ def _r4_global_only(corpus: Corpus, rep: Report) -> None:
     applies = [
         c
         for c in walk_local(mfl.node)
-        if isinstance(c, ast.Call) and dotted(c.func) in ("setattr", "validate_field") and enclosing_loop(c, mfl) is not None
+        if isinstance(c, ast.Call) and enclosing_loop(c, mfl) is not None and _stores_config_value(corpus, mfl, c)
     ]
     if not applies:
-        raise Unsupported(f"{mfl.fq}: no setattr/validate_field inside the loop over the file-level values")
+        raise Unsupported(f"{mfl.fq}: no setattr/validate_field (direct or in a helper) inside the loop over the file-level values")
     unguarded = []
     for c in applies:
         gs = cfg.guards(cfg.stmt_of(c))
@@ -3139,6 +3154,12 @@ def mutants(corpus: Corpus):
         gif = find_node(mfl, lambda n: isinstance(n, ast.If) and "global_only" in unparse(n.test))
         if gif is not None:
             out.append(Mutant("c10-revert-4dae2c7-global-only-ignored", "C10.R4", cmn0.rel, splice(cmn0.src, gif.test, "False"), expect="refuses global_only"))
+            # class "a value is stored (directly or through a helper) before the global_only test"
+            ind = " " * gif.col_offset
+            gseg = segment(cmn0.src, gif)
+            out.append(Mutant("c10-global-only-store-before-test", "C10.R4", cmn0.rel, splice(cmn0.src, gif, f"setattr(new, name, value)\n{ind}{gseg}"), expect="refuses global_only"))
+            helper = "\n\ndef _store_file_level_value(new, name, value):\n    setattr(new, name, value)\n"
+            out.append(Mutant("c10-global-only-helper-store-before-test", "C10.R4", cmn0.rel, splice(cmn0.src, gif, f"_store_file_level_value(new, name, value)\n{ind}{gseg}") + helper, expect="refuses global_only"))
     try:
         fld_, fst_, ci0 = _slug_func_field(corpus)
         flag_ = _field_metadata(fst_).get("global_only")
